@@ -69,7 +69,7 @@ def run(chk: Check, model):
         ok = kw.get("size") == T.ONE and kw.get("fill_value") == n
         chk.add("C10.arrival", "first-hit search with fill = window length", ok, f"argwhere uses {[(k, T.show(v)) for k, v in a[3]]}, expected size=1, fill_value=len(window)", chk.loc(f_ad))
         idx_max = T.mk_index(a, ("tuple", (T.ZERO, T.ZERO)))
-        pred = _ones_is_one(a[2][0])
+        pred = T.where_to_ite(_ones_is_one(a[2][0]))
         # delayed arrival of a real message: ts_sent + min + alpha (max - min); dummy entries (seq < 0) keep their own ts_recv
         real = T.assume(pred, T.lt(S("input.seq"), T.ZERO), False)
         d_ref = T.add(S("self.min"), T.mul(S("self.alpha"), T.sub(S("self.max"), S("self.min"))))
